@@ -3,7 +3,8 @@ import DoitModel.Model.Clean
 open Lean DoitModel.Clean
 namespace Driver.Clean
 /-! requests `{"model":"clean", "tasks":[{"label":s,"task_dep":[n],"setup":[n],"subtask_of":n|null,"targets":[s],
-      "kind":"none"|"targets"|"act"|"actdry"}], "pos":[s], "defaults":null|[s], "cleandep":b, "cleanall":b,
+      "kind":"none"|"targets"|"actions",
+      "actions":[{"type":"aware"|"plain"|"cmd","eff":null|["rm",s]|["mk",s]}]}], "pos":[s], "defaults":null|[s], "cleandep":b, "cleanall":b,
       "dryrun":b, "forget":b, "files":[s], "dirs":[s], "db":[n],
       "obs": {"order":[n], "files":[s], "dirs":[s], "db":[n]} (optional: what the implementation did)}`
     answer: `{"outcome":"ok"|"not-a-task"|"key-error", "order":[n], "events":[[tag,t,...]], "files","dirs","db",
@@ -13,11 +14,22 @@ namespace Driver.Clean
 def chars (s : String) : List Char := s.toList
 def str (p : List Char) : String := String.ofList p
 
-def parseKind (s : String) : CleanKind :=
-  match s with
+def parseAct (j : Json) : Act :=
+  { kind := match jstr j "type" with
+      | "aware" => .aware
+      | "cmd" => .cmd
+      | _ => .plain,
+    eff := match jarr j "eff" with
+      | [tag, p] => if asStr tag = "rm" then some (.rm (chars (asStr p)))
+                    else if asStr tag = "mk" then some (.mk (chars (asStr p))) else none
+      | _ => none }
+
+def parseKind (j : Json) : CleanKind :=
+  match jstr j "kind" with
   | "targets" => .targets
-  | "act" => .action false
-  | "actdry" => .action true
+  | "actions" => .actions ((jarr j "actions").map parseAct)
+  | "act" => .actions [⟨.plain, none⟩]
+  | "actdry" => .actions [⟨.aware, none⟩]
   | _ => .nothing
 
 def parseTask (j : Json) : Task :=
@@ -26,7 +38,7 @@ def parseTask (j : Json) : Task :=
     setup := jnats j "setup",
     subtaskOf := (j.getObjValAs? Nat "subtask_of").toOption,
     targets := (jstrs j "targets").map chars,
-    kind := parseKind (jstr j "kind") }
+    kind := parseKind j }
 
 def parseReq (j : Json) : Req :=
   { pos := (jstrs j "pos").map chars,
@@ -43,8 +55,9 @@ def sortStrs (xs : List String) : List String := (xs.toArray.qsort (· < ·)).to
 def sortNats (xs : List Nat) : List Nat := (xs.toArray.qsort (· < ·)).toList
 
 def evJson : Ev → Json
-  | .executing t => mkArr [Json.str "executing", toJson t]
-  | .ran t d => mkArr [Json.str "ran", toJson t, Json.bool d]
+  | .executing t k => mkArr [Json.str "executing", toJson t, toJson k]
+  | .ran t k d => mkArr [Json.str "ran", toJson t, toJson k, Json.bool d]
+  | .cmd t k => mkArr [Json.str "cmd", toJson t, toJson k]
   | .rmFile t p => mkArr [Json.str "rm-file", toJson t, Json.str (str p)]
   | .rmDir t p => mkArr [Json.str "rm-dir", toJson t, Json.str (str p)]
   | .notEmpty t p => mkArr [Json.str "not-empty", toJson t, Json.str (str p)]
